@@ -1,12 +1,11 @@
-SPECIFICATION GSpec
+SPECIFICATION Spec
 CONSTANTS
-  Threads = {"t1", "t2"}
+  Threads = {t1, t2}
   Xorbs = {1, 2, 3}
   XC <- MC_XC
   P0 <- MC_P0
   Ext <- MC_Ext
   IndexCap = 100
-  Variant = "ok"
-  MaxLen = 9
-INVARIANT Emit
+  Variant = "quadratic_count"
+INVARIANT Invs
 CHECK_DEADLOCK FALSE
